@@ -24,8 +24,8 @@ func TestAtomsNonSpaceEnds(t *testing.T) {
 func TestGenCase(t *testing.T) {
 	rels := map[string]int{}
 	for i := 0; i < 600; i++ {
-		a := genCase(core.Rand(5, "t"+string(rune('a'+i%26))+string(rune('a'+i/26))), true, true)
-		b := genCase(core.Rand(5, "t"+string(rune('a'+i%26))+string(rune('a'+i/26))), true, true)
+		a := genCase(core.Rand(5, "t"+string(rune('a'+i%26))+string(rune('a'+i/26))), true, true, true)
+		b := genCase(core.Rand(5, "t"+string(rune('a'+i%26))+string(rune('a'+i/26))), true, true, true)
 		if !reflect.DeepEqual(a, b) {
 			t.Fatalf("generation is not deterministic")
 		}
@@ -58,7 +58,7 @@ func TestGenCase(t *testing.T) {
 			}
 		}
 	}
-	for _, r := range []string{"show-vs-var", "render-repeated", "render-vs-alone", "md-render-vs-convert", "extends-vs-expanded", "import-vs-local", "default-missing", "default-present"} {
+	for _, r := range []string{"show-vs-var", "for-import-vs-qualified", "dead-code-removed", "render-repeated", "render-vs-alone", "md-render-vs-convert", "extends-vs-expanded", "import-vs-local", "default-missing", "default-present"} {
 		if rels[r] == 0 {
 			t.Errorf("relation %s never generated", r)
 		}
